@@ -405,7 +405,11 @@ func init() {
 				outs = append(outs, Outcome{st: eo.st, ret: &TupleV{E: []Value{&SliceV{N: e.tb.Int64(0)}, eo.err}}})
 				continue
 			}
-			outs = append(outs, Outcome{st: eo.st, ret: &TupleV{E: []Value{e.newDoc(eo.st, eo.n), &IfaceV{}}}})
+			d := e.newDoc(eo.st, eo.n)
+			if e.cfg.Spellings {
+				e.get(eo.st, d.Obj).(*JDocV).HTMLEsc = true // freshly allocated, not shared yet
+			}
+			outs = append(outs, Outcome{st: eo.st, ret: &TupleV{E: []Value{d, &IfaceV{}}}})
 		}
 		return outs
 	})
